@@ -182,8 +182,12 @@ func g12SkeletonFn(f *File, fd *ast.FuncDecl, body *ast.BlockStmt) []string {
 			}
 		case *ast.IfStmt:
 			elseBlock, elseIsBlock := n.Else.(*ast.BlockStmt)
-			if onlyLogs(n.Body) && (n.Else == nil || (elseIsBlock && onlyLogs(elseBlock))) && n.Init == nil {
-				return // chooses a log line only
+			if onlyLogs(n.Body) && (n.Else == nil || (elseIsBlock && onlyLogs(elseBlock))) {
+				// the branch only chooses a log line: not part of the skeleton (calls of its init statement are)
+				if n.Init != nil {
+					walkStmt(n.Init)
+				}
+				return
 			}
 			if n.Init != nil {
 				walkStmt(n.Init)
